@@ -525,7 +525,10 @@ spifconf_shell_expand(spif_charptr_t s)
               break;
           case '\\':
               D_CONF(("Escape sequence detected.\n"));
-              if (!in_single || (in_single && *(pbuff + 1) == '\'')) {
+              if (!*(pbuff + 1)) {
+                  /* Nothing left to escape; keep the backslash. */
+                  newbuff[j] = *pbuff;
+              } else if (!in_single || (in_single && *(pbuff + 1) == '\'')) {
                   switch (tolower(*(++pbuff))) {
                     case 'n':
                         newbuff[j] = '\n';
